@@ -63,6 +63,8 @@ def run(F, chk):
     check_b2(lib, B2)
     check_b3(lib, B3)
     check_b4(F, lib, B4)
+    B5 = chk.rule('B5', 'every integer division/remainder has a divisor that is a non-zero constant, locally guarded non-zero, or a field all of whose writers store a guarded non-zero value')
+    check_b5(F, lib, B5)
     # census of what no rule speaks about
     census = {}
     for b in lib:
@@ -384,3 +386,142 @@ def check_b4(F, lib, B4):
                              '%s at %s allocates %s which derives from integers decoded from message bytes (%s) without a dominating upper bound: one crafted message requests an arbitrary amount of memory / overflows the capacity' %
                              (t.callee.path, b.loc(t.sp), size_txt[:100], ', '.join(sorted(set(d.split('::')[-1] for d in dec)))), where=b.loc(t.sp))
     B4.floor('message-sized allocation sites', n, 1)
+
+
+# ---------------------------------------------------------------------------------------------
+# B5: divisors
+
+def _strip_casts(e):
+    while isinstance(e, tuple) and e[0] == 'cast':
+        e = e[1]
+    return e
+
+
+def _nonzero_known(known, val):
+    """does one of the known conditions imply `val` != 0 ?  (val compared modulo casts)"""
+    sv = show(_strip_casts(val))
+    from c11 import const_eval
+    for (c, truth, D) in known:
+        if not (isinstance(c, tuple) and c[0] == 'bin' and truth is True):
+            continue
+        a, bb = show(_strip_casts(c[2])), show(_strip_casts(c[3]))
+        ka, kb = const_eval(c[2]), const_eval(c[3])
+        if c[1] == 'Ne' and ((a == sv and kb == 0) or (bb == sv and ka == 0)):
+            return show(c)
+        if c[1] == 'Gt' and a == sv and kb is not None and kb >= 0:
+            return show(c)
+        if c[1] == 'Ge' and a == sv and kb is not None and kb >= 1:
+            return show(c)
+        if c[1] == 'Lt' and bb == sv and ka is not None and ka >= 0:
+            return show(c)
+        if c[1] == 'Le' and bb == sv and ka is not None and ka >= 1:
+            return show(c)
+    return None
+
+
+def _field_behind(cfg, op, depth=0):
+    """(owner ADT, field name, field index) if the operand is (a cast/copy of) a field of an adlt struct"""
+    if op.place is None or depth > 6:
+        return None
+    fl = [e for e in op.place.p if e['k'] == 'f' and e.get('o', '').startswith('adlt')]
+    if fl:
+        return (fl[-1]['o'], fl[-1]['n'], fl[-1]['i'])
+    if not op.place.is_local:
+        return None
+    sd = cfg.single_def(op.place.l)
+    if sd is None or sd[1] == 'call':
+        return None
+    rv = sd[2].rv
+    if rv['k'] in ('use', 'cast'):
+        return _field_behind(cfg, Operand(rv['o']), depth + 1)
+    return None
+
+
+def check_b5(F, lib, B5):
+    """Integer division/remainder panics on a zero divisor in every build profile.  Every `/` and `%` of the library
+    (MIR Assert DivisionByZero/RemainderByZero) must have a divisor that is a non-zero constant, or is locally guarded
+    non-zero, or is a struct field whose every writer (constructor aggregate or field store, anywhere in the library)
+    is dominated by a guard that the stored value is non-zero."""
+    from c11 import const_eval
+    n = 0
+    writers_cache = {}
+    for b in lib:
+        sites = [blk for blk in b.blocks if not blk.cleanup and blk.term.k == 'assert' and blk.term.d['ak'] in ('DivisionByZero', 'RemainderByZero')]
+        if not sites:
+            continue
+        cfg = CFG(b)
+        E = ExprBuilder(cfg, fold_named=True)
+        for blk in sites:
+            n += 1
+            B5.sites += 1
+            B5.fn(b.path)
+            c = E.operand(Operand(blk.term.d['cond']))
+            if not (isinstance(c, tuple) and c[0] == 'bin' and c[1] == 'Eq'):
+                B5.violation(('divisor-shape', b.path), 'cannot identify the divisor of the division at %s (%s)' % (b.loc(blk.term.sp), show(c)[:80]), where=b.loc(blk.term.sp))
+                continue
+            div = c[2]
+            v = const_eval(div)
+            if v is not None and v != 0:
+                B5.ok(sample={'at': b.loc(blk.term.sp), 'divisor': v, 'how': 'non-zero constant'})
+                continue
+            g = _nonzero_known(guards.known(cfg, E, blk.i), div)
+            if g:
+                B5.ok(sample={'at': b.loc(blk.term.sp), 'divisor': show(div)[:60], 'how': 'dominating guard ' + g[:80]})
+                continue
+            # field invariant
+            sd = cfg.single_def(Operand(blk.term.d['cond']).place.l) if Operand(blk.term.d['cond']).place is not None else None
+            fld = None
+            if sd is not None and sd[1] != 'call' and sd[2].rv['k'] == 'bin':
+                fld = _field_behind(cfg, Operand(sd[2].rv['a']))
+            if fld is None:
+                B5.violation(('divisor-unguarded', b.path, show(_strip_casts(div))[-40:]), 'division at %s: the divisor %s is neither a non-zero constant nor guarded non-zero' % (b.loc(blk.term.sp), show(div)[:100]),
+                             where=b.loc(blk.term.sp))
+                continue
+            owner, name, idx = fld
+            if (owner, name) not in writers_cache:
+                writers_cache[(owner, name)] = field_writers(lib, owner, name, idx)
+            ws = writers_cache[(owner, name)]
+            bad = [w for w in ws if not w[2]]
+            if ws and not bad:
+                B5.ok(sample={'at': b.loc(blk.term.sp), 'divisor': '%s.%s' % (owner.split('::')[-1], name), 'how': 'field invariant: all %d writers store a value guarded non-zero' % len(ws),
+                              'writers': [w[0] for w in ws][:4]})
+            elif not ws:
+                B5.violation(('divisor-field-no-writer', owner, name), 'division at %s by field %s.%s for which no writer was found' % (b.loc(blk.term.sp), owner, name), where=b.loc(blk.term.sp))
+            else:
+                B5.violation(('divisor-field-may-be-zero', owner, name, b.path),
+                             'division at %s by %s.%s: the value stored into that field at %s (%s) is not guarded non-zero there, and the division has no guard of its own: a zero panics (division by zero)' %
+                             (b.loc(blk.term.sp), owner.split('::')[-1], name, bad[0][0], bad[0][1][:60]), where=b.loc(blk.term.sp))
+    B5.floor('integer divisions/remainders in the library', n, 25)
+
+
+def field_writers(lib, owner, name, idx):
+    """[(loc, value text, guard text or None)] for every aggregate constructing `owner` and every store into owner.name"""
+    out = []
+    for b in lib:
+        hits = []
+        for blk in b.blocks:
+            if blk.cleanup:
+                continue
+            for s in blk.stmts:
+                if s.k != 'assign':
+                    continue
+                rv = s.rv
+                if rv['k'] == 'agg' and rv.get('ak') == 'adt' and rv.get('adt') == owner and len(rv['ops']) > idx:
+                    hits.append((blk, s, Operand(rv['ops'][idx])))
+                else:
+                    fl = [e for e in s.place.p if e['k'] == 'f']
+                    if fl and fl[-1].get('o') == owner and fl[-1]['n'] == name and s.place.p[-1] is fl[-1] and rv['k'] in ('use', 'cast'):
+                        hits.append((blk, s, Operand(rv['o'])))
+        if not hits:
+            continue
+        cfg = CFG(b)
+        E = ExprBuilder(cfg, fold_named=True)
+        from c11 import const_eval
+        for (blk, s, op) in hits:
+            val = E.operand(op)
+            v = const_eval(val)
+            if v is not None and v != 0:
+                out.append((b.loc(s.sp), show(val), 'constant %d' % v))
+                continue
+            out.append((b.loc(s.sp), show(val), _nonzero_known(guards.known(cfg, E, blk.i), val)))
+    return out
